@@ -1,7 +1,7 @@
 (* C15 - a stored BLOB reads back byte-for-byte whatever its size or input chunking.
    Statements only; every proof is `exact <lemma>` into C15_Blob/Proofs.v. *)
 From Coq Require Import List NArith ZArith Lia.
-From V Require Import Lib.Lex Lib.SMap Storage.Spec Gen.Params C15_Blob.Model C15_Blob.Proofs C15_Blob.Quota.
+From V Require Import Lib.Lex Lib.SMap Storage.Spec Gen.Params C15_Blob.Model C15_Blob.Proofs C15_Blob.Quota C15_Blob.Crash.
 Import ListNotations.
 Local Open Scope N_scope.
 
@@ -51,6 +51,21 @@ Theorem ok_write_is_within_quota :
   sz = total_len reads /\ within quota sz /\ e = EndEOF.
 Proof. exact (ok_write_is_within_quota_proved aeqb). Qed.
 
+(* ReadBLOB refuses a BLOB whose state does not say Completed (repaired finding C15-F3; read from the source) *)
+Lemma read_requires_completed : blob_read_requires_completed = true.
+Proof. reflexivity. Qed.
+
+(* A write to a key that has no state row yet, whose process dies (or whose storage stops taking
+   effect) after ANY number n >= 1 of its storage calls - the state row alone, or the state row and
+   any number of chunk rows - is never readable as a BLOB, at any later time. *)
+Theorem crashed_write_not_complete :
+  forall (st : bstore A) k now now' descr dur quota (reads : list (chunk A)) n,
+  raw_lookup st (pkey k 0) ccol_state = None ->
+  N.of_nat (length reads) + 1 < 2 ^ 64 ->
+  (1 <= n)%nat ->
+  exists err, read_blob now' (write_crashed now st k descr dur quota reads n) k = RFail err.
+Proof. exact (crashed_write_not_complete_proved read_requires_completed). Qed.
+
 (* A write touches only partitions of its own key ... *)
 Theorem write_frame :
   forall (st st' : bstore A) k now descr dur quota reads e r pk,
@@ -96,9 +111,23 @@ Example over_quota_by_small_chunks_refused :
   snd (write_blob N.eqb 0 [] k 5 0 (Some 5) [mkChunk 3 1; mkChunk 3 2] EndEOF) = WFail 6 WQuota.
 Proof. vm_compute. reflexivity. Qed.
 
+(* before the repair a write that died right after its state row read back as a complete empty BLOB:
+   the size check 0 = 0 passed (the model without the status test is the code before C15-F3) *)
+Example crashed_after_state_row_nonvacuous :
+  let k := KPersistent 1 2 7 in
+  read_blob 5%Z (write_crashed (A:=N) 0 [] k 5 0 None [mkChunk 3 1] 1) k = RFail RCorrupted
+  /\ read_blob 5%Z (write_crashed (A:=N) 0 [] k 5 0 None [mkChunk 3 1; mkChunk 2 2] 3) k = RFail RCorrupted.
+Proof. vm_compute. split; reflexivity. Qed.
+
+Example crashed_after_state_row_read_back_as_empty_blob_refuted :
+  let k := KPersistent 1 2 7 in
+  exists s, read_blob_gen false 5%Z (write_crashed (A:=N) 0 [] k 5 0 None [mkChunk 3 1] 1) k = ROk s [].
+Proof. eexists. vm_compute. reflexivity. Qed.
+
 Print Assumptions read_write_id.
 Print Assumptions interrupted_not_complete.
 Print Assumptions ok_write_is_within_quota.
+Print Assumptions crashed_write_not_complete.
 Print Assumptions write_frame.
 Print Assumptions key_isolation.
 Print Assumptions pkey_injective.
